@@ -4,7 +4,7 @@ import Fundraising.Proofs.VestingLemmas
   Settlement transfers only touch the bank; `ApplyVestingSchedules` and
   `CloseFixedPriceAuction` preserve `WF` and `BankNonneg`.
 -/
-namespace Fundraising
+namespace Fundraising.WFInv
 
 theorem BidWF.congr {a a' : Auction} {al : List Allowed} {b : Bid} (h : BidWF a al b)
     (h1 : a'.id = a.id) (h2 : a'.type = a.type) (h3 : a'.startPrice = a.startPrice)
@@ -125,14 +125,14 @@ theorem applyVesting_wf {c c' : Ctx} {aid : Nat} {v : AView}
   have V := hw.views aid v hv
   have hq0 : v.vqs = [] := V.vqsNone (Or.inr (Or.inl hst))
   have hbids : ∀ (st : Status), ∀ b ∈ v.bids, BidWF { v.a with status := st } v.allowed b :=
-    fun st b hb => (V.bids b hb).congr rfl rfl rfl rfl rfl rfl
+    fun st b hb => BidWF.congr (V.bids b hb) rfl rfl rfl rfl rfl rfl
   split at h
   · -- no schedule: pay the auctioneer, finished
     rename_i hemp
     simp only [bind_ok, pure_ok] at h
     obtain ⟨c1, hb, rfl⟩ := h
     obtain ⟨f1, _, n1⟩ := bankCall_frame hb
-    refine ⟨WF.ctx_setView (hw.frame f1) aid _ ?_, n1 (mkCoins_nonneg hmk)⟩
+    refine ⟨WF.ctx_setView (WF.frame f1 hw) aid _ ?_, n1 (mkCoins_nonneg hmk)⟩
     have hs0 : v.a.schedules = [] := by simpa using hemp
     exact {
       id := V.id
@@ -173,7 +173,7 @@ theorem applyVesting_wf {c c' : Ctx} {aid : Nat} {v : AView}
     rw [hsp] at h
     simp only [pure_ok] at h
     subst h
-    refine ⟨WF.ctx_setView (hw.frame f1) aid _ ?_, n1 (mkCoins_nonneg hmk)⟩
+    refine ⟨WF.ctx_setView (WF.frame f1 hw) aid _ ?_, n1 (mkCoins_nonneg hmk)⟩
     have hfold := foldl_setVQ
       (fun p => ({ auction := aid, release := p.1, auctioneer := v.a.auctioneer,
                    denom := v.a.payDenom, amt := p.2, released := false } : VQ))
@@ -225,4 +225,4 @@ theorem applyVesting_wf {c c' : Ctx} {aid : Nat} {v : AView}
         exact ⟨_, rfl, rfl⟩
       finishedAll := by intro h; simp at h }
 
-end Fundraising
+end Fundraising.WFInv
